@@ -1109,6 +1109,27 @@ def run(ctx) -> None:
                    "not written and the reloaded component falls back to the default" % ("/".join(path), dk, short(bad[0], 60)),
                    construct="converter %s -> %s is total" % ("/".join(path), dk))
     check_writer_keeps_text(ctx, m, wt)
+    # the same for the writers of the variable sections (seed C19-15): a comprehension that copies a mapping into what is written filters
+    # on nothing but 'is not None' - `if value` drops a stage variable that is '' or 0, and the stage file then carries the global value
+    n_dumpf = 0
+    for q_, f_ in m.functions.items():
+        if not (q_.startswith("Dosini._dump_") or q_ == "Dosini.configuration_for_stage") or q_.count(".") != 1:
+            continue
+        n_dumpf += 1
+        for c in [x for x in ast.walk(f_) if isinstance(x, (ast.DictComp, ast.ListComp, ast.GeneratorExp)) and any(g.ifs for g in x.generators)]:
+            for g in c.generators:
+                if not (isinstance(g.iter, ast.Call) and last_attr(g.iter) == "items" and isinstance(g.target, ast.Tuple) and len(g.target.elts) == 2
+                        and isinstance(g.target.elts[1], ast.Name)):
+                    continue
+                vname = g.target.elts[1].id
+                bad_ = [t for t in g.ifs if any(isinstance(x, ast.Name) and x.id == vname for x in ast.walk(t)) and not _is_none_identity(t)]
+                ctx.ob("C19.R5-writer-total", c, not bad_,
+                       "%s copies the mapping it writes without filtering on the values" % q_.split(".")[-1] if not bad_ else
+                       "%s drops entries of the mapping it writes by a test of the VALUE other than 'is not None' (%s): a stage variable that is '' or 0 "
+                       "is not written into the stage's [META] section, the globals copied into that section fill the name in, and every "
+                       "component of the stage reloads with the global's value" % (q_.split(".")[-1], short(bad_[0], 40)),
+                       construct="%s: mapping written without a value filter" % q_.split(".")[-1])
+    ctx.require(n_dumpf >= 4, "anchor missing: the _dump_* writers of Dosini (found %d)" % n_dumpf)
     tdd = m.func("Dosini._translate_dict_to_dict")
     ctx.analysed(tdd)
     filt = [c for c in ast.walk(tdd) if isinstance(c, ast.DictComp) and any(g.ifs for g in c.generators)]
